@@ -153,6 +153,8 @@ def _offset_task(task, p):
         yB = yA[:, ::-1].copy()
         compare(variant, params, yA, nd, yB, nd, lambda o: o[:, ::-1], valid, "time reversal", p, "reversal")
         p.count("reversal", nontrivial=nontriv)
+        # the reversed series handed over as a view (negative stride) rather than a copy
+        compare(variant, params, yA, nd, yA[:, ::-1], nd, lambda o: o[:, ::-1], valid, "time reversal (strided view)", p, "reversal")
     if n == 5 and lo == 0:
         p.sample("offset", {"variant": variant, "params": params, "word": yA[77].tolist(), "offsets": OFFSETS})
 
